@@ -3,10 +3,13 @@
   `Vec.powspace`, `Vec.normP`), class (R): interpreted over ℝ with the instances of
   Ohsl/Lemmas/RealTransc.lean (`powf := Real.rpow`, `fabs := |·|`, `ofNat := Nat.cast`, `divM` is
   the exact division that rejects an exact zero divisor).
-  NOT proved here: anything about rounding in f64 (class F).  Two places where the real
-  interpretation deliberately differs from IEEE arithmetic are spelled out as theorems:
-  `powspace_one_rejects` (f64: `0.0 / 0.0 = NaN`, no panic) and `normP_zero_rejects`
-  (f64: `1.0 / 0.0 = inf`, no panic).
+  NOT proved here: anything about rounding in f64 (class F; see C15F / C15M).  Places where the real
+  interpretation deliberately differs from IEEE arithmetic: `powspace_one_rejects` (f64:
+  `0.0 / 0.0 = NaN`, no panic), `normP_zero_rejects` (f64: `1.0 / 0.0 = inf`, no panic), both
+  spelled out as theorems, and — for NEGATIVE exponents p — Mathlib's `0 ^ p = 0` where f64 has
+  `powf(0, p) = inf` (node 0 of `powspace`, zero entries in `normP`): `powspace_spec_real`,
+  `normP_nonneg`, `normP_smul` rest on that convention for p < 0 and say nothing about f64 there
+  (the property quantifies over p ∈ [1, 8]).
 -/
 import Ohsl.Props.C15N
 import Mathlib.Analysis.MeanInequalities
